@@ -995,6 +995,7 @@ func init() {
 		},
 	}})
 	register(&Property{ID: "C05", Streams: []*Stream{
+		shippedStream,
 		{
 			Name: "alone-together", Quick: 150, Thorough: 900, New: func() Case { return &aloneCase{} },
 			Gen: func(r *Rng, i int) Case {
